@@ -3,7 +3,7 @@
 From Coq Require Import List Arith NArith ZArith Lia Bool.
 Import ListNotations.
 From NTRIPGen Require Import GenConsts.
-From NTRIP Require Import Base Bits Time Classify Frame FrameSpec FrameProofs SegProofs Net Pipe PipeFrames.
+From NTRIP Require Import Base Bits Time Classify Frame FrameSpec FrameProofs SegProofs Net Pipe PipeFrames IncFrame PipeInc.
 Local Open Scope Z_scope.
 
 (* writeRTCMMessages: skip message.MessageType == utils.NonRTCMMessage, write message.RawData *)
@@ -162,6 +162,25 @@ Theorem filter_every_schedule t0 segs tail (k : nat) (live sync : nat -> bool) c
 Proof.
   intros W T H0 H1 Hl Hc.
   destruct (pipeline_frames t0 (flatten segs ++ tail) k live sync cap0 cap1 caps H0 H1 Hl Hc) as (ms & h' & Hms & n & Hn).
+  destruct (filter_segments (new_handler t0) segs tail W T) as (ms2 & h2 & Hms2 & Hout).
+  rewrite Hms in Hms2. injection Hms2 as <- <-.
+  exists n. intros m c Hm. destruct (Hn m c Hm) as [Hle Hfin]. split; [exact Hle|].
+  intros Hf i Hi Hlive. rewrite (Hfin Hf i Hi), Hlive. exact Hout.
+Qed.
+
+(* the same with the byte-driven framer of IncFrame.v as the framer process *)
+Theorem filter_incremental t0 segs tail (k : nat) (live sync : nat -> bool) cap0 cap1 caps :
+  wf_segsb segs = true -> tail_ok tail ->
+  (1 <= cap0)%nat -> (1 <= cap1)%nat -> length caps = k -> Forall (fun c => (1 <= c)%nat) caps ->
+  exists n, forall m c,
+    steps _ (nstep _ _ _ (Pipe.prog N msg mstate mstep mflush k live sync) Pipe.sender Pipe.receiver (SkDone _ _ _)) m
+          (Pipe.init N msg mstate k cap0 cap1 caps (flatten segs ++ tail) (new_handler t0, PEat [])) c ->
+    (m <= n)%nat /\
+    (final_config _ _ _ (Pipe.prog N msg mstate mstep mflush k live sync) Pipe.sender Pipe.receiver (SkDone _ _ _) c ->
+     forall i, (i < k)%nat -> live i = true -> filter_output (sink_out N msg mstate c i) = frames_of segs).
+Proof.
+  intros W T H0 H1 Hl Hc.
+  destruct (pipeline_incremental t0 (flatten segs ++ tail) k live sync cap0 cap1 caps H0 H1 Hl Hc) as (ms & h' & Hms & n & Hn).
   destruct (filter_segments (new_handler t0) segs tail W T) as (ms2 & h2 & Hms2 & Hout).
   rewrite Hms in Hms2. injection Hms2 as <- <-.
   exists n. intros m c Hm. destruct (Hn m c Hm) as [Hle Hfin]. split; [exact Hle|].
